@@ -275,8 +275,8 @@ func (m *mutator) ForceFlush(context.Context) error { return nil }
 type capture struct{ rec sdklog.Record }
 
 func (c *capture) OnEmit(_ context.Context, r *sdklog.Record) error { c.rec = r.Clone(); return nil }
-func (c *capture) Shutdown(context.Context) error                    { return nil }
-func (c *capture) ForceFlush(context.Context) error                  { return nil }
+func (c *capture) Shutdown(context.Context) error                   { return nil }
+func (c *capture) ForceFlush(context.Context) error                 { return nil }
 
 var replayProg = flag.String("c06-prog", "", "replay one deterministic program \"q,b,s: ops\" -c06-n times and print the histories")
 var replayN = flag.Int("c06-n", 1, "repetitions for -c06-prog")
@@ -391,6 +391,7 @@ type sctx struct {
 	done      chan struct{}
 	closed    bool
 	doneCalls int
+	live      bool // never expires by itself: Err() answers nil until cancelled
 }
 
 func newSctx() *sctx {
@@ -416,9 +417,15 @@ func (c *sctx) cancelLocked() {
 func (c *sctx) Err() error {
 	c.mu.Lock()
 	defer c.mu.Unlock()
+	if c.live && !c.closed {
+		return nil
+	}
 	c.cancelLocked()
 	return context.Canceled
 }
+// wake makes a waiter re-check (the call returned).
+func (c *sctx) wake() { c.mu.Lock(); c.cond.Broadcast(); c.mu.Unlock() }
+
 func (c *sctx) cancel() { c.mu.Lock(); c.cancelLocked(); c.cond.Broadcast(); c.mu.Unlock() }
 
 // ---- rig ----
